@@ -26,3 +26,6 @@ def run(prog, chk):
     chk.rule("C02.level", "input level rule over the numeric boundaries (0, equal, one above / below the first level correction, 0xff, 0x100, "
                           "values above 32 bits, legacy record)", floor=20)
     PC.check_input_level(prog, chk, "C02.level")
+    chk.rule("C02.entry", "KSI_Signature_verifyWithPolicy binds the verification to the document hash and level given as arguments, with or without "
+                          "a caller-supplied context", floor=12)
+    PC.check_verify_entry(prog, chk, "C02.entry")
